@@ -240,14 +240,14 @@ func runC07(c *core.Ctx) {
 		full := gen.FullCfg()
 		maxSize := 3
 		pres := []string{"a = 3; b = \"s\"", "a = [1, 2]; b = {1: 2}", "a = func(x) { x }; b = nil", "a = 1.5; b = [1,2,3,4,5,6,7,8,9]", "a = true; b = quote(z)", "a = {}; b = -1"}
-		if !c.Quick() {
-			maxSize = 4
-			pres = pres[:3]
-		}
+		maxSize = 4
 		for size := 1; size <= maxSize && ok; size++ {
 			ok = full.EnumStmt(size, func(n *gen.N) bool {
 				src := gen.Render([]*gen.N{n}, gen.Policy{StmtSep: "\n"})
-				for _, pre := range pres {
+				for pi, pre := range pres {
+					if size == 4 && c.Quick() && pi > 0 {
+						break // quick tier: the largest trees under the first binding only
+					}
 					if !do("wild", pre, src) {
 						return false
 					}
@@ -255,7 +255,7 @@ func runC07(c *core.Ctx) {
 				return true
 			})
 		}
-		bounds = append(bounds, fmt.Sprintf("every G-syn tree of size <=%d evaluated under %d bindings of its identifiers", maxSize, len(pres)))
+		bounds = append(bounds, fmt.Sprintf("every G-syn tree of size <=%d evaluated under %d bindings of its identifiers (quick: size 4 under the first binding only)", maxSize, len(pres)))
 	}
 	// 5. single-byte mutations of the shipped programs that still parse, evaluated under a step budget (thorough)
 	if ok && !c.Quick() {
